@@ -1804,6 +1804,9 @@ class NetCDFRead(IORead):
                     # This variable is a mesh topology
                     self._ugrid_parse_mesh_topology(ncvar, attributes)
 
+            # Location index sets refer to mesh topologies, so parse
+            # them after all of the mesh topologies
+            for ncvar, attributes in variable_attributes.items():
                 if "location_index_set" in attributes:
                     # This data variable has a domain defined by a
                     # location_index_set
@@ -9317,16 +9320,17 @@ class NetCDFRead(IORead):
         mesh_ncvar = location_index_set_attributes["mesh"]
         attributes = g["variable_attributes"][mesh_ncvar]
 
-        index_set = self._create_data(location_index_set_ncvar)
+        # Zero-based indices of the selected cells, as a numpy array
+        index_set = self._create_data(location_index_set_ncvar).array
         start_index = location_index_set_attributes.get("start_index", 0)
         if start_index:
-            index_set -= start_index
+            index_set = index_set - start_index
 
         # Do not attempt to create a field or domain construct from a
         # location index set variable
         g["do_not_create_field"].add(location_index_set_ncvar)
 
-        g["mesh"][location_index_set_ncvar] = Mesh(
+        mesh = Mesh(
             mesh_ncvar=mesh_ncvar,
             mesh_attributes=attributes,
             location_index_set_ncvar=location_index_set_ncvar,
@@ -9335,6 +9339,34 @@ class NetCDFRead(IORead):
             index_set=index_set,
             mesh_id=uuid4().hex,
         )
+
+        # The cells of the location index set are the selected cells
+        # of the parent mesh at the same location: give them the
+        # parent's auxiliary coordinate, domain topology and cell
+        # connectivity constructs, subspaced by the index set
+        parent = g["mesh"][mesh_ncvar]
+        if location in parent.ncdim:
+            mesh.ncdim[location] = self._ncdimensions(
+                location_index_set_ncvar
+            )[0]
+
+        auxs = parent.auxiliary_coordinates.get(location)
+        if auxs:
+            mesh.auxiliary_coordinates[location] = [
+                aux[index_set] for aux in auxs
+            ]
+
+        domain_topology = parent.domain_topologies.get(location)
+        if domain_topology is not None:
+            mesh.domain_topologies[location] = domain_topology[index_set]
+
+        conns = parent.cell_connectivities.get(location)
+        if conns:
+            mesh.cell_connectivities[location] = [
+                conn[index_set] for conn in conns
+            ]
+
+        g["mesh"][location_index_set_ncvar] = mesh
 
     def _ugrid_create_auxiliary_coordinates(
         self,
